@@ -218,7 +218,7 @@ def batches(draw):
 
 CLAUSES = [
     Clause('same-process-and-wrappers', check_inprocess, kind='random', strategy=inprocess_cases,
-           budget={'quick': 1600, 'thorough': 30000}),
+           budget={'quick': 1600, 'thorough': 16000}),
     Clause('fresh-processes-hash-seeds', check_fresh_processes, kind='random', strategy=batches,
-           budget={'quick': 96, 'thorough': 2880}),
+           budget={'quick': 96, 'thorough': 1920}),
 ]
